@@ -149,4 +149,40 @@ func (*compiler).VisitUnaryExpr [C02]
   ensures c.latestReturnType == descr(c, resultUn(e.Operator, tyClassOf(e.Rhs)))
   ensures ir.irty(c.latestReturn) == irOfClass(resultUn(e.Operator, tyClassOf(e.Rhs)))
   replay - replay_templates/c02_unary.sh - : op = e.Operator ; cls = tyClassOf(e.Rhs) ; res = resultUn(e.Operator, tyClassOf(e.Rhs))
+
+// --- binary operators on numbers (language rules): arithmetic promotes Byte < Zahl < Kommazahl; durch always gives a
+//     Kommazahl; modulo and the bitwise operators work on Zahl/Byte and give a Byte only for two Bytes; shifts keep the
+//     left operand's type; comparisons give a Wahrheitswert ---
+spec arith(op ast.BinaryOperator) bool := op == ast.BIN_PLUS || op == ast.BIN_MINUS || op == ast.BIN_MULT
+spec bitwise(op ast.BinaryOperator) bool := op == ast.BIN_LOGIC_AND || op == ast.BIN_LOGIC_OR || op == ast.BIN_LOGIC_XOR
+spec shift(op ast.BinaryOperator) bool := op == ast.BIN_LEFT_SHIFT || op == ast.BIN_RIGHT_SHIFT
+spec ordering(op ast.BinaryOperator) bool := op == ast.BIN_LESS || op == ast.BIN_GREATER || op == ast.BIN_LESS_EQ || op == ast.BIN_GREATER_EQ
+spec intCls(k int) bool := k == 1 || k == 3
+spec admissibleBin(op ast.BinaryOperator, l int, r int) bool :=
+     ((arith(op) || op == ast.BIN_DIV || ordering(op)) && numericCls(l) && numericCls(r))
+  || ((op == ast.BIN_MOD || bitwise(op) || shift(op)) && intCls(l) && intCls(r))
+  || (op == ast.BIN_XOR && l == 4 && r == 4)
+spec resultBin(op ast.BinaryOperator, l int, r int) int :=
+  arith(op) ? ((l == 2 || r == 2) ? 2 : ((l == 3 && r == 3) ? 3 : 1)) :
+  (op == ast.BIN_DIV ? 2 :
+  ((op == ast.BIN_MOD || bitwise(op)) ? ((l == 3 && r == 3) ? 3 : 1) :
+  (shift(op) ? l : 4)))
+
+func (*compiler).VisitBinaryExpr#2 [C02]
+  requires e != nil && e.OverloadedBy == nil && admissibleBin(e.Operator, tyClassOf(e.Lhs), tyClassOf(e.Rhs))
+  assume wfCompiler(c)
+  nopanic
+  ensures c.latestReturnType == descr(c, resultBin(e.Operator, tyClassOf(e.Lhs), tyClassOf(e.Rhs)))
+  ensures ir.irty(c.latestReturn) == irOfClass(resultBin(e.Operator, tyClassOf(e.Lhs), tyClassOf(e.Rhs)))
+  replay - replay_templates/c02_binary.sh - : op = e.Operator ; l = tyClassOf(e.Lhs) ; r = tyClassOf(e.Rhs) ; res = resultBin(e.Operator, tyClassOf(e.Lhs), tyClassOf(e.Rhs))
+
+// --- zwischen: three numbers, any mix of Zahl/Kommazahl/Byte, gives a Wahrheitswert ---
+func (*compiler).VisitTernaryExpr [C02]
+  requires e != nil && e.OverloadedBy == nil && e.Operator == ast.TER_BETWEEN
+  requires numericCls(tyClassOf(e.Lhs)) && numericCls(tyClassOf(e.Mid)) && numericCls(tyClassOf(e.Rhs))
+  assume wfCompiler(c)
+  nopanic
+  ensures c.latestReturnType == descr(c, 4)
+  ensures ir.irty(c.latestReturn) == 4
+  replay - replay_templates/c02_ternary.sh - : op = e.Operator ; l = tyClassOf(e.Lhs) ; m = tyClassOf(e.Mid) ; r = tyClassOf(e.Rhs)
 @*/
